@@ -3,7 +3,8 @@ Proof: coq/props/C14.v (refinement of the Buffered model over the Bounded ring-b
 ideal prefetcher; stream, pull-block, exhaustion and padding theorems for every capacity >= 1, every
 valid pre-filled (start,len) state, every source, every interleaving of next / next_frames with
 partial drains).  Tie: correspondence between the model's executable definitions
-(Signal/BufferedRun.v, evaluated by coqc) and dasp_signal's `source.buffered(ring_buffer)` driven
+(Signal/BufferedRun.v, evaluated by coqc) and dasp_signal's `source.buffered(ring_buffer)`, built in BOTH
+cargo profiles (dev and --release), driven
 over real `Bounded::from_raw_parts(start,len,data)` buffers with an instrumented from_iter source."""
 import json, os, itertools, hashlib
 import framework as F
@@ -178,6 +179,12 @@ def main(rep, tier, seed):
     if not ok:
         rep.violation("harness_build", {"kind": "harness does not build against /repo", "log": blog[-4000:]}, no_input=True)
         return finish(rep, info, 0, 0, {}, [])
+    # second profile: release (no debug assertions, no overflow checks); the model is profile-independent
+    ok, blog, relpath = F.harness_build("c14", release=True)
+    if not ok:
+        rep.violation("harness_build_release", {"kind": "harness does not build against /repo (release profile)", "log": blog[-4000:]}, no_input=True)
+        return finish(rep, info, 0, 0, {}, [])
+    bins = {"debug": binpath, "release": relpath}
     # the executable model is not in the closure of props/C14.v: build it from its current source
     ok, mlog = F.coq_make(RUN_VO)
     if not ok:
@@ -185,7 +192,7 @@ def main(rep, tier, seed):
         return finish(rep, info, 0, 0, {}, [])
     corpus = load_corpus()
     hist, caps, srcl, groups, stores = {}, {}, {}, {}, {}
-    st = dict(n=0, refills=0, bad=0, errors=False)
+    st = dict(n=0, refills=0, bad=0, errors=False, rel_n=0, rel_differs=0, rel_bad=0)
     nontriv, samples, bad_items = set(), [], []
 
     def process(chunk, base):
@@ -213,7 +220,37 @@ def main(rep, tier, seed):
         st["bad"] += len(bad)
         for idx in bad:
             if len(bad_items) < 3:
-                bad_items.append((base + idx, chunk[idx]))
+                bad_items.append((base + idx, chunk[idx], "debug"))
+        # release profile on the same cases: the model was evaluated once (above, against the debug
+        # observations); a release line equal to the debug line inherits its verdict, every release
+        # line that differs is sent to coqc with its own observation
+        if not errors:
+            rc, rel, err = F.run_bin_parallel(relpath, [it["line"] for it in chunk])
+            if rc != 0 or len(rel) != len(chunk):
+                st["errors"] = True
+                rep.violation(f"correspondence_error_{base}_release_harness",
+                              {"kind": "release harness failed", "log": f"rc={rc} lines={len(rel)}/{len(chunk)} stderr={err[-1500:]}"}, no_input=True)
+            else:
+                st["rel_n"] += len(chunk)
+                badset = set(bad)
+                diff = [i for i in range(len(chunk)) if rel[i] != outl[i]]
+                st["rel_differs"] += len(diff)
+                rel_bad = [i for i in range(len(chunk)) if i in badset and rel[i] == outl[i]]
+                if diff:
+                    try:
+                        terms = [f"({chunk[i]['coq']}, {F.zlistlist(F.norm_obs_line(rel[i]))})" for i in diff]
+                        b2, e2 = F.coq_check_cases("c14_release", HEADER, CHECK, terms)
+                    except ValueError as ex:
+                        b2, e2 = [], [("harness", f"unparsable release observation: {ex}")]
+                    for name, msg in e2:
+                        st["errors"] = True
+                        rep.violation(f"correspondence_error_{base}_release_" + name.replace("/", "_"),
+                                      {"kind": "correspondence could not be evaluated (release)", "where": name, "log": msg}, no_input=True)
+                    rel_bad += [diff[k] for k in b2]
+                st["rel_bad"] += len(rel_bad)
+                for idx in sorted(rel_bad):
+                    if sum(1 for b in bad_items if b[2] == "release") < 3 and not any(b[0] == base + idx for b in bad_items):
+                        bad_items.append((base + idx, chunk[idx], "release"))
         for j in (0, len(chunk) // 2, len(chunk) - 1):
             if len(samples) < 4 and chunk:
                 samples.append(chunk[j]["line"])
@@ -229,28 +266,37 @@ def main(rep, tier, seed):
             chunk = []
     if chunk:
         process(chunk, base)
-    for idx, it in bad_items:
+    for idx, it, profile in bad_items:
+        pbin = bins[profile]
 
         def fails(c):
-            o, b, e = F.correspond(binpath, [c], HEADER, CHECK, "c14_shrink")
+            o, b, e = F.correspond(pbin, [c], HEADER, CHECK, "c14_shrink")
             return bool(b) and not e
 
         small = F.shrink_ops(it, build, fails)
-        rc, out, _ = F.run_bin(binpath, [small["line"]])
+        obs_by_profile = {pn: F.run_bin(pb, [small["line"]])[1] for pn, pb in bins.items()}
         _, model = F.coq_eval("c14", HEADER, f"run_case ({small['coq']})")
-        rep.violation(f"case{idx}", {
-            "kind": "model/implementation disagreement: dasp_signal::Buffered does not behave as the prefetcher the proved model refines",
-            "case": {k: small[k] for k in CASE_KEYS},
-            "harness_line": small["line"], "implementation_observations": out, "model_observations": model[-3000:],
+        rep.violation(f"case{idx}_{profile}", {
+            "kind": f"model/implementation disagreement in the {profile} profile: dasp_signal::Buffered does not behave as the prefetcher the proved model refines",
+            "profile": profile, "case": {k: small[k] for k in CASE_KEYS},
+            "harness_line": small["line"], "implementation_observations": obs_by_profile[profile],
+            "observations_by_profile": obs_by_profile, "model_observations": model[-3000:],
             "original_case_index": idx, "replay": "./check.py C14 --replay <this file>"})
     n_rand = groups.get("random", 0)
     dist = {"ops_histogram": hist, "capacity": caps, "source_length": srcl, "group": groups, "storage_and_frame_kind": stores,
             "exhaustive_short_script_cases": st["n"] - n_rand - len(corpus), "random_scripts": n_rand,
             "corpus_cases": len(corpus), "refills_observed": st["refills"]}
-    return finish(rep, info, st["n"], 0 if st["errors"] else len(nontriv), dist, samples, st["bad"])
+    profiles = {"debug": {"evaluations": st["n"], "disagreements": st["bad"],
+                          "build": "cargo dev profile (debug assertions + overflow checks on)"},
+                "release": {"evaluations": st["rel_n"], "disagreements": st["rel_bad"],
+                            "observation_lines_differing_from_debug": st["rel_differs"],
+                            "build": "cargo --release (debug assertions and overflow checks off)",
+                            "method": "same cases; a release observation line identical to the debug line inherits the debug line's coqc verdict, every differing line is evaluated by coqc against the model"}}
+    return finish(rep, info, st["n"] + st["rel_n"], 0 if st["errors"] else len(nontriv), dist, samples,
+                  st["bad"] + st["rel_bad"], profiles)
 
 
-def finish(rep, info, n, nontriv, dist, samples, nbad=0):
+def finish(rep, info, n, nontriv, dist, samples, nbad=0, profiles=None):
     th = info.get("theorems", [])
     cov = {
         "obligations": max(1, len(th)), "discharged": len(th) if info.get("coq_ok") else 0,
@@ -261,9 +307,9 @@ def finish(rep, info, n, nontriv, dist, samples, nbad=0):
             "reused: the C06 Bounded model and its refinement lemmas (Ring/BoundedProofs.v)"],
         "theorems": th, "axioms_reported": info.get("axioms", []),
         "evaluations": n, "distinct_nontrivial": nontriv,
-        "rule": "every script of depth 0 and 1 (quick: depth 1 for capacities 4,5 on 7 source lengths, depth 2 for capacities <= 3 on 4 source lengths; thorough: depth 2 everywhere, depth 3 for capacities <= 3 (capacity 3 on 6 source lengths)) over {next, frames 0..cap+1, manual cap+2, all, hint, exh} from every raw (start,len) state of capacities 1..5 and source lengths 0..13, each followed by a drain past exhaustion (one frame at a time after the empty script, whole batches after the others) with is_exhausted watched, plus random scripts (2000 quick / 40000 thorough) on capacities 1..16, 4 storage kinds x 2 frame types; non-trivial = a refill (source pull counter rises) happens while the ring's start index != 0, or a partial drain (batch yields >= 1 frame and leaves >= 1) is directly followed by next",
-        "samples": samples, "input_distribution": dist, "disagreements": nbad,
-        "explanation": "theorems: refinement of the model to the ideal prefetcher and its stream / pull-block / exhaustion / padding consequences for all capacities, states, sources and histories; tie: the model's executable definitions run by coqc on the same cases as the real crate, every observation (frames, both pull counters after each op, size_hint, is_exhausted, final ring content) compared exactly",
+        "rule": "both cargo profiles (dev and --release) on: every script of depth 0 and 1 (quick: depth 1 for capacities 4,5 on 7 source lengths, depth 2 for capacities <= 3 on 4 source lengths; thorough: depth 2 everywhere, depth 3 for capacities <= 3 (capacity 3 on 6 source lengths)) over {next, frames 0..cap+1, manual cap+2, all, hint, exh} from every raw (start,len) state of capacities 1..5 and source lengths 0..13, each followed by a drain past exhaustion (one frame at a time after the empty script, whole batches after the others) with is_exhausted watched, plus random scripts (2000 quick / 40000 thorough) on capacities 1..16, 4 storage kinds x 2 frame types; non-trivial = a refill (source pull counter rises) happens while the ring's start index != 0, or a partial drain (batch yields >= 1 frame and leaves >= 1) is directly followed by next",
+        "samples": samples, "input_distribution": dist, "disagreements": nbad, "profiles": profiles or {},
+        "explanation": "evaluations = cases x 2 build profiles (debug and release harness binaries run on the same cases; see profiles). theorems: refinement of the model to the ideal prefetcher and its stream / pull-block / exhaustion / padding consequences for all capacities, states, sources and histories; tie: the model's executable definitions run by coqc on the same cases as the real crate, every observation (frames, both pull counters after each op, size_hint, is_exhausted, final ring content) compared exactly",
     }
     return rep.finish("proof", cov, ["the source is signal::from_iter over a finite iterator (frames then equilibrium forever)",
                                     "Rust slices are modelled as lists and usize as unbounded nat",
@@ -273,13 +319,16 @@ def finish(rep, info, n, nontriv, dist, samples, nbad=0):
 def replay(path):
     j = json.load(open(path))
     it = build(j["case"])
-    ok, blog, binpath = F.harness_build("c14")
     F.coq_make(RUN_VO)
-    rc, out, _ = F.run_bin(binpath, [it["line"]])
     _, model = F.coq_eval("c14", HEADER, f"run_case ({it['coq']})")
     print("case:", it["line"])
-    print("implementation:", out)
     print("model:", model)
-    o, bad, errs = F.correspond(binpath, [it], HEADER, CHECK, "c14_replay")
-    print("AGREE" if not bad and not errs else "DISAGREE")
-    return 1 if bad or errs else 0
+    worst = 0
+    for profile, rel in (("debug", False), ("release", True)):
+        ok, blog, binpath = F.harness_build("c14", release=rel)
+        rc, out, _ = F.run_bin(binpath, [it["line"]])
+        print(f"implementation[{profile}]:", out)
+        o, bad, errs = F.correspond(binpath, [it], HEADER, CHECK, "c14_replay")
+        print(f"[{profile}]", "AGREE" if not bad and not errs else "DISAGREE")
+        worst |= 1 if bad or errs else 0
+    return worst
